@@ -48,6 +48,7 @@ type leaf struct {
 	token string // unique marker
 	safe  bool   // outside every subtree that any mode could exclude
 	linky bool   // the text is (mostly) inside links
+	inNav bool   // inside <nav>, <aside>, role=navigation or role=complementary: excluded by every mode but None
 }
 
 type page struct {
@@ -59,6 +60,7 @@ var exclVocab = []string{"nav", "navbar", "navigation", "menu", "sidebar", "foot
 var nearVocab = []string{"navy", "menuhin", "canvas", "footnote-text", "headline", "content", "article-body", "story", "sidecar", "navel"}
 
 type gen struct {
+	navDepth int
 	r      *sim.Rand
 	b      strings.Builder
 	leaves []leaf
@@ -71,11 +73,12 @@ func (g *gen) tok() string {
 	return "w" + strconv.Itoa(g.n) + "q"
 }
 
-var fillers = []string{"alpha", "bravo &amp; charlie", "delta &lt;tag&gt;", "caf&eacute;", "&#8212; dash", "&#x4e2d;&#x6587;", "x &quot;y&quot;", "plain words here"}
+var fillers = []string{"alpha", "bravo &amp; charlie", "delta &lt;tag&gt;", "caf&eacute;", "&#8212; dash", "&#x4e2d;&#x6587;", "x &quot;y&quot;", "plain words here",
+	"raw café crème", "中文字符 и кириллица", "emoji 😀 𝔘", "pipe a|b c", "line one<br>line two", "tab\there"}
 
 func (g *gen) text(safe bool, linky bool) string {
 	t := g.tok()
-	g.leaves = append(g.leaves, leaf{token: t, safe: safe, linky: linky})
+	g.leaves = append(g.leaves, leaf{token: t, safe: safe, linky: linky, inNav: g.navDepth > 0})
 	s := t + " " + sim.Pick(g.r, fillers)
 	if linky {
 		return "<a href=\"/l" + strconv.Itoa(g.n) + "\">" + s + "</a>"
@@ -180,13 +183,35 @@ func (g *gen) container(safe bool, depth int) {
 		g.demoteIfLinky(start)
 	case 3:
 		tag := sim.Pick(g.r, []string{"nav", "aside", "header", "footer"})
+		isNav := tag == "nav" || tag == "aside"
+		// sometimes inside a div that also has text of its own (no element around it)
+		bare := g.r.Pct(30)
+		if bare {
+			g.b.WriteString("<div>loose words before ")
+		}
 		g.b.WriteString("<" + tag + ">")
+		if isNav {
+			g.navDepth++
+		}
 		g.content(n, false, depth+1, g.r.Bool())
+		if isNav {
+			g.navDepth--
+		}
 		g.b.WriteString("</" + tag + ">")
+		if bare {
+			g.b.WriteString(" loose words after</div>")
+		}
 	case 4:
 		role := sim.Pick(g.r, []string{"navigation", "complementary", "banner", "contentinfo", "main", "search"})
+		isNav := role == "navigation" || role == "complementary"
 		g.b.WriteString("<div role=\"" + role + "\">")
+		if isNav {
+			g.navDepth++
+		}
 		g.content(n, false, depth+1, false)
+		if isNav {
+			g.navDepth--
+		}
 		g.b.WriteString("</div>")
 	case 5, 6:
 		name := sim.Pick(g.r, exclVocab)
@@ -422,6 +447,14 @@ func (p *Prop) Execute(c *sim.Case, env *sim.Env) *sim.Result {
 		have := map[string]bool{}
 		for _, tk := range seqs[m] {
 			have[tk] = true
+		}
+		if m > 0 {
+			for _, l := range pg.leaves {
+				if l.inNav && have[l.token] {
+					fail("explicit-leak:"+modeNames[m], fmt.Sprintf("text %s lies inside <nav>, <aside> or a navigation / complementary role, which every mode except None excludes, but mode %s returns it", l.token, modeNames[m]))
+					break
+				}
+			}
 		}
 		for _, l := range pg.leaves {
 			if l.safe && !have[l.token] {
